@@ -197,7 +197,8 @@ def run_reuse(case, res):
     cfg = case["cfg"]
     bhe = build(cfg)
     solver = rn.RadialNumericalBH(bhe)
-    solver.calc_sts_g_functions(bhe)
+    l0, g0 = solver.calc_sts_g_functions(bhe)
+    float(solver.g_sts(l0[-1]))  # the response is read through its interpolant, as the hybrid load analysis does
     for step in case["steps"]:
         res["evals"] += 1
         if step.get("other_object"):
@@ -214,6 +215,16 @@ def run_reuse(case, res):
         gb1 = np.array(solver.g_bhw)
         fresh = rn.RadialNumericalBH(copy.deepcopy(bhe))
         l2, g2 = fresh.calc_sts_g_functions(copy.deepcopy(bhe))
+        # the interpolant the object hands out describes the response just computed (same range, same values)
+        try:
+            gi = [float(solver.g_sts(x)) for x in (l1[0], l1[len(l1) // 2], l1[-1])]
+            bad_i = max(abs(a - b) for a, b in zip(gi, (g1[0], g1[len(g1) // 2], g1[-1]))) > 1e-9
+        except Exception as e:  # noqa: BLE001
+            gi, bad_i = f"{type(e).__name__}: {e}", True
+        if bad_i:
+            res["violations"].append(core.viol("interpolant_differs_from_response", dict(case, steps=case["steps"][: case["steps"].index(step) + 1]),
+                                               msg=f"after {step} the object's g_sts interpolant gives {gi} at the first / middle / last point of the response just computed ({float(g1[0])}, ..., {float(g1[-1])})"))
+            break
         if not (np.allclose(l1, l2, rtol=0, atol=1e-12) and np.allclose(g1, g2, rtol=0, atol=1e-9) and np.allclose(gb1, fresh.g_bhw, rtol=0, atol=1e-9)):
             res["violations"].append(core.viol("reused_solver_differs_from_fresh", dict(case, steps=case["steps"][: case["steps"].index(step) + 1]),
                                                msg=f"after {step} the reused solver's last g is {float(g1[-1])!r}, a fresh solver gives {float(g2[-1])!r}", changed=sorted(step)))
